@@ -331,6 +331,11 @@ class MPBFixedContext(SizedContext):
             nmin, maxval, neg_maxval, enable_nan, enable_inf, enable_neg_zero,
         )
 
+        # a substitute is a value of the format: fine enough (above) and in range
+        for what, sub, enabled in (('NaN', nan_value, enable_nan), ('Inf', inf_value, enable_inf)):
+            if sub is not None and not enabled and sub.is_finite() and not self._fmt.representable_in(sub):
+                raise ValueError(f'Rounding {what} to unrepresentable value')
+
         self.nmin = nmin
         self.pos_maxval = self._fmt.pos_maxval
         self.neg_maxval = self._fmt.neg_maxval
